@@ -3,7 +3,8 @@
    pinned here so they cannot be weakened silently. *)
 From Coq Require Import List NArith ZArith Bool Lia Permutation.
 From YV Require Import Scanner.PrivIter Scanner.PrivIterProofs Scanner.Tracking
-  Gen.TrackingGen Scanner.Results Scanner.TrackingProofs Scanner.ResultsProofs.
+  Gen.TrackingGen Scanner.Results Scanner.TrackingProofs Scanner.ResultsProofs
+  Scanner.MatchesIter Scanner.MatchesIterProofs.
 Import ListNotations.
 Local Open Scope Z_scope.
 
@@ -79,6 +80,34 @@ Proof.
   exact (drain_exact _ _ _ (include_private_inv _ _ _ inc (patterns_iter_inv pats))).
 Qed.
 Print Assumptions patterns_len_exact.
+
+(* Pattern::matches(): for every context, every pattern-match table and every
+   point k of an iteration, len() is exactly the number of matches still
+   yielded, these are the pattern's matches from position k on, and one more
+   next() either yields (length drops by one) or the length was 0.  The
+   constructor and next() shapes are regenerated from models.rs. *)
+Theorem matches_len_exact : forall (C M : Type) (ctx : option C) (lookup : C -> option (list M))
+    (detached : option (list M)) (k fuel : nat),
+  let it0 := mk_matches matches_iter_from_ctx ctx lookup detached in
+  let it := m_after matches_next_needs_ctx k it0 in
+  let all := match ctx with Some c => match lookup c with Some l => l | None => [] end | None => [] end in
+  (m_len it <= fuel)%nat ->
+  length (m_drain matches_next_needs_ctx fuel it) = m_len it /\
+  m_drain matches_next_needs_ctx fuel it = skipn k all /\
+  match m_next matches_next_needs_ctx it with
+  | (Some _, it') => m_len it = S (m_len it')
+  | (None, it') => m_len it = 0%nat /\ it' = it
+  end.
+Proof. intros C M. exact (@MatchesIterProofs.matches_len_exact C M). Qed.
+Print Assumptions matches_len_exact.
+
+(* the invariant behind it is needed: matches held without a context would
+   announce one item and yield none *)
+Theorem matches_without_ctx_refuted : forall (C M : Type) (x : M),
+  let it := mkM (C:=C) None (Some [x]) in
+  m_len it = 1%nat /\ m_drain true 5 it = [].
+Proof. intros C M. exact (@MatchesIterProofs.matches_without_ctx_refuted C M). Qed.
+Print Assumptions matches_without_ctx_refuted.
 
 (* the usize counter decremented by the global-rule purge never underflows *)
 Theorem purge_counter_no_underflow : forall rules d1 d2 bm mp,
